@@ -161,6 +161,8 @@ INJECT = [
     ("native/partition.rs", "src/engine/operators/partition.rs", "verif_nat_partition", ("native",)),
     ("native/merge_partitioned.rs", "src/engine/operators/merge_partitioned.rs", "verif_nat_merge_partitioned", ("native",)),
     ("native/subpartition_op.rs", "src/engine/operators/subpartition.rs", "verif_nat_subpartition_op", ("native",)),
+    ("native/merge_dedup_part.rs", "src/engine/operators/merge_deduplicate_partitioned.rs", "verif_nat_merge_dedup_part", ("native",)),
+    ("native/data_types.rs", "src/engine/data_types/data.rs", "verif_nat_data_types", ("native",)),
     ("native/inner_locustdb.rs", "src/scheduler/inner_locustdb.rs", "verif_nat_inner_locustdb", ("native",)),
 ]
 
